@@ -215,6 +215,59 @@ def handle (j : Json) : Except String Json := do
               Json.mkObj [("id", jStr (sn (stringId cfg'))), ("ret", jInt r),
                           ("valid", jBool (validCfgB sp cfg'))] :: go st' cfg' t
         pure (Json.mkObj [("trace", jArr (go St.init cfg steps)), ("start_valid", jBool (validCfgB sp cfg))])
+  | "population" =>
+    -- operators applied to the members of a population, interleaved with other operations on
+    -- the expression; every step reports what the call returned and the configuration the
+    -- controllers show afterwards
+    let e ← exprOf (← j.getObjVal? "expr")
+    match central e with
+    | .error er => pure (errJ er)
+    | .ok sp =>
+      let prepared := prepareOperators sp
+      let members ← (← strList (← j.getObjVal? "members")).mapM fun s =>
+        match fromString (nm s) with
+        | .ok c => pure c
+        | .error _ => throw "bad-op"
+      let events ← (← getArr j "events").toList.mapM fun s => do
+        match (← getStr s "e") with
+        | "apply" =>
+          match lookupOp prepared (nm (← getStr s "key")) with
+          | some o => pure (Event.apply o (← getInt s "step") (← natList (← s.getObjVal? "choices"))
+                              (← getNat s "src") (← getNat s "dst"))
+          | none => throw "bad-op"
+        | "configure" =>
+          match fromString (nm (← getStr s "id")) with
+          | .ok c => pure (Event.configure c)
+          | .error _ => throw "bad-op"
+        | "select" => pure (Event.setCtrl (nm (← getStr s "name")) (← getInt s "index"))
+        | "modify" => pure (Event.modifyCtrl (nm (← getStr s "name")) (← getInt s "step") (← getBool s "circular"))
+        | _ => throw "bad-op"
+      let stateJ (st : St) : Json := match getConfiguration sp st with
+        | .error er => errJ er
+        | .ok c => jStr (sn (stringId c))
+      let rec goPop (st : St) (pop : List Config) : List Event → List Json
+        | [] => []
+        | ev :: t =>
+          match stepEvent sp st pop ev with
+          | .error er => [errJ er]
+          | .ok (st', pop', oc, oi) =>
+            let f1 := match oc with
+              | some c => [("id", jStr (sn (stringId c))), ("valid", jBool (validCfgB sp c))]
+              | none => []
+            let f2 := match oi with
+              | some r => [("ret", jInt r)]
+              | none => []
+            Json.mkObj (f1 ++ f2 ++ [("state", stateJ st')]) ::  goPop st' pop' t
+      let final := match runEvents sp St.init members events with
+        | .error er => errJ er
+        | .ok (_, pop) => jStrs (pop.map fun c => sn (stringId c))
+      -- the members reached by the operator calls alone, from another state (theorem population_history)
+      let alone := match runEvents sp (fun _ => 1) members (onlyApplies events) with
+        | .error er => errJ er
+        | .ok (_, pop) => jStrs (pop.map fun c => sn (stringId c))
+      pure (Json.mkObj [("trace", jArr (goPop St.init members events)), ("members", final),
+                        ("members_applies_only", alone),
+                        ("members_valid", jBool (members.all (validCfgB sp)))])
   | _ => throw "bad-op"
 
 def main : IO Unit := Drv.run handle
